@@ -197,6 +197,13 @@ func (P *Prog) foldIntG(t *Term) (int64, bool) {
 	if n, ok := foldInt(t); ok {
 		return n, true
 	}
+	if t.Op == "binop" && len(t.Args) == 2 && t.S == "*" {
+		if a, ok := P.foldIntG(t.Args[0]); ok {
+			if b, ok := P.foldIntG(t.Args[1]); ok {
+				return a * b, true
+			}
+		}
+	}
 	if t.Op == "binop" && len(t.Args) == 2 && (t.S == "+" || t.S == "-") {
 		if a, ok := P.foldIntG(t.Args[0]); ok {
 			if b, ok := P.foldIntG(t.Args[1]); ok {
@@ -207,7 +214,7 @@ func (P *Prog) foldIntG(t *Term) (int64, bool) {
 			}
 		}
 	}
-	if t.Op == "len" && len(t.Args) == 1 && t.Args[0].Op == "load" && t.Args[0].Args[0].Op == "global" {
+	if P != nil && t.Op == "len" && len(t.Args) == 1 && t.Args[0].Op == "load" && t.Args[0].Args[0].Op == "global" {
 		if b, ok := P.globalBytes(t.Args[0].Args[0].S); ok {
 			return int64(len(b)), true
 		}
@@ -539,16 +546,35 @@ func (A *audit) sliceSafe(s *ssa.Slice) (bool, string) {
 	}
 	// linear reasoning over the dominating comparisons: 0 <= lo <= hi <= len
 	{
-		lo, hi := tInt(0), tLen(xt)
-		if s.Low != nil {
-			lo = P.terms.of(s.Low)
-		}
-		if s.High != nil {
-			hi = P.terms.of(s.High)
-		}
 		fn := s.Parent()
-		if A.geCtx(fn, lo, fs, 0) && A.geCtx(fn, tSub(hi, lo), fs, 0) && A.geCtx(fn, tSub(tLen(xt), hi), fs, 0) {
-			return true, fmt.Sprintf("0 <= %s <= %s <= len follows from the dominating comparisons", truncate(lo.String(), 40), truncate(hi.String(), 40))
+		within := func(eng *termEngine) bool {
+			x := eng.of(s.X)
+			lo, hi := tInt(0), tLen(x)
+			if s.Low != nil {
+				lo = eng.of(s.Low)
+			}
+			if s.High != nil {
+				hi = eng.of(s.High)
+			}
+			return A.geCtx(fn, lo, fs, 0) && A.geCtx(fn, tSub(hi, lo), fs, 0) && A.geCtx(fn, tSub(tLen(x), hi), fs, 0)
+		}
+		if within(P.terms) {
+			return true, "0 <= low <= high <= len follows from the dominating comparisons"
+		}
+		// inside a loop with a constant trip count: every iteration separately
+		for _, l := range A.loopsOf(fn) {
+			if l.constBound < 1 || l.constBound > 16 || l.idx == nil || !(l.kind == "counted" || l.kind == "slice-range") || !l.blocks[s.Block()] || s.Block() == l.header {
+				continue
+			}
+			all := true
+			for j := int64(0); j < l.constBound; j++ {
+				if !within(P.terms.withConst(map[ssa.Value]int64{l.idx: j})) {
+					all = false
+				}
+			}
+			if all {
+				return true, fmt.Sprintf("0 <= low <= high <= len holds in each of the %d iterations of the constant-bound loop", l.constBound)
+			}
 		}
 	}
 	// with only one bound present lo <= hi reduces to bound <= len; with both
